@@ -188,6 +188,15 @@ func (k *KnownFile) match(prop, key string) *KnownEntry {
 
 // ---------------------------------------------------------------- evidence
 
+// outDir: where evidence and replays go. /verif unless VERIF_OUT names another directory (used when the
+// checks are pointed at a scratch tree with VERIF_REPO, so that /verif/evidence always describes /repo).
+func outDir(c *Ctx) string {
+	if d := os.Getenv("VERIF_OUT"); d != "" {
+		return d
+	}
+	return c.Verif
+}
+
 type evidence struct {
 	PropertyID  string         `json:"property_id"`
 	Tier        string         `json:"tier"`
@@ -222,7 +231,7 @@ func Finish(c *Ctx, r *Report) int {
 		}
 		h := sha256.Sum256([]byte(f.Key))
 		name := fmt.Sprintf("%s-%s.json", c.Prop, hex.EncodeToString(h[:6]))
-		path := filepath.Join(c.Verif, "replays", name)
+		path := filepath.Join(outDir(c), "replays", name)
 		os.MkdirAll(filepath.Dir(path), 0o755)
 		b, _ := json.MarshalIndent(map[string]any{"property": c.Prop, "tier": c.Tier, "key": f.Key, "message": f.Msg, "replay": f.Replay}, "", " ")
 		os.WriteFile(path, b, 0o644)
@@ -253,7 +262,7 @@ func Finish(c *Ctx, r *Report) int {
 	ev := evidence{PropertyID: c.Prop, Tier: c.Tier, Seed: c.Seed, Level: r.Level, Coverage: r.Coverage,
 		Assumptions: r.Assumptions, WallS: time.Since(c.Start).Seconds(), Violations: nviol}
 	b, _ := json.MarshalIndent(ev, "", " ")
-	evp := filepath.Join(c.Verif, "evidence", c.Prop+".json")
+	evp := filepath.Join(outDir(c), "evidence", c.Prop+".json")
 	os.MkdirAll(filepath.Dir(evp), 0o755)
 	if err := os.WriteFile(evp, b, 0o644); err != nil {
 		fmt.Fprintf(os.Stderr, "engine: cannot write evidence: %v\n", err)
